@@ -36,6 +36,7 @@ type JSONReadRow struct {
 	SetsIsSet bool
 	Deletes   bool
 	NullTest  bool
+	DecodeTargets []types.Type // types of the variables handed to json.Unmarshal(raw, &x)
 	Problems  []string
 	Pos       token.Pos
 }
@@ -735,6 +736,13 @@ func buildJSONReader(p *Program, o *JSONObject) {
 									}
 									if !good {
 										row.Problems = append(row.Problems, "the error of "+calleeName(info, call)+" for key "+key+" is not returned with the key named: a wrong-typed value would be accepted or reported without its property")
+									}
+									if strings.HasSuffix(calleeName(info, call), "json.Unmarshal") && len(call.Args) == 2 {
+										if u, ok := call.Args[1].(*ast.UnaryExpr); ok && u.Op == token.AND {
+											if t := info.TypeOf(u.X); t != nil {
+												row.DecodeTargets = append(row.DecodeTargets, t)
+											}
+										}
 									}
 									// the decode source must be the raw value of this key
 									usesRaw := false
